@@ -234,7 +234,7 @@ fn run(id: &str, tier: Tier, child: bool) -> i32 {
             println!("KNOWN-FINDING: property={} {} [{}] (hits this run: {})", def.id, k.description, k.signature, c.known_hits.get(&k.signature).copied().unwrap_or(0));
         }
     }
-    let missing: Vec<&&str> = def.required.iter().filter(|r| c.classes.get(**r).copied().unwrap_or(0) == 0).collect();
+    let missing: Vec<&String> = def.required.iter().filter(|r| c.classes.get(*r).copied().unwrap_or(0) == 0).collect();
     if !missing.is_empty() {
         println!("INCONCLUSIVE: required input classes never generated: {:?}", missing);
         return 2;
